@@ -358,7 +358,7 @@ theorem check_tag_regenerated (prog : Program) (e : Nat) (st : St) (P T1 T2 : Li
           (T1.length, .pub), (0, .undef), (0, .undef), (0, .undef), (0, .undef), (0, .undef), (0, .undef), (0, .undef), (0, .undef)] st =
         .ok (.ret (some (if T1 = T2 then 0 else 4294967295, lr))) env' st' ∧
       st'.mem = setBlock st.mem bp (writeBytes blkp.bytes op (P.map fun p => (if T1 = T2 then p else 0, Lab.sec))) ∧
-      st'.ent = st.ent := by
+      st'.ent = st.ent ∧ lr ≠ Lab.undef := by
   have hPl : P.length < 18446744073709551616 := by unfold ptrBase at hlp; omega
   have hTl : T1.length < 18446744073709551616 := by unfold ptrBase at hl1; omega
   rw [body_eq]
@@ -394,7 +394,7 @@ theorem check_tag_regenerated (prog : Program) (e : Nat) (st : St) (P T1 T2 : Li
   have hlr : ((la1.join Lab.pub).join Lab.pub) ≠ Lab.undef := Lab.join_ne_undef _ _
   simp only [evalE, h5, hlr, if_false, unVal, Ty.modulus]
   have hz := accF_eq_zero T1 T2 0 hlen
-  refine ⟨env2, st2, (la1.join Lab.pub).join Lab.pub, ?_, ?_, by rw [hent2, hent1]⟩
+  refine ⟨env2, st2, (la1.join Lab.pub).join Lab.pub, ?_, ?_, by rw [hent2, hent1], hlr⟩
   · by_cases ht : T1 = T2
     · have h0 : accF 0 T1 T2 = 0 := hz.mpr ⟨rfl, ht⟩
       rw [if_pos h0, if_pos ht]
